@@ -249,3 +249,38 @@ class PassBuilder:
 
     def truth_times(self):
         return self.times_ms.copy()
+
+
+# --- TLE support (element sets are data about the orbit, not code under test)
+NOAA14_TLE = ("1 23455U 94089A   00322.04713399  .00000318  00000-0  19705-3 0  5298\n"
+              "2 23455  99.1591 303.5706 0010037  25.7760 334.3905 14.12496755303183\n"
+              "1 23455U 94089A   00322.96799836  .00000229  00000-0  14918-3 0  5303\n"
+              "2 23455  99.1590 304.5117 0009979  23.1101 337.0518 14.12496633303313\n")
+
+
+def tle_dir(ctx):
+    """Directory with TLE_noaa14.txt (2000-322) and TLE_noaa16.txt (2000-265 .. 2007-096)."""
+    d = os.path.join(ctx.scratch, "tle")
+    if not os.path.isdir(d):
+        os.makedirs(d)
+        with open(os.path.join(d, "TLE_noaa14.txt"), "w") as fh:
+            fh.write(NOAA14_TLE)
+        src = "/repo/gapfilled_tles/TLE_noaa16.txt"
+        if os.path.exists(src):
+            import shutil
+            shutil.copy(src, os.path.join(d, "TLE_noaa16.txt"))
+    return d
+
+
+def make_reader(ctx, fmt, path=None, data=None, name=None, **kw):
+    """Real reader of the given format, read from a path or from bytes."""
+    import io
+    cls = reader_class(fmt)
+    kw.setdefault("tle_dir", tle_dir(ctx))
+    kw.setdefault("tle_name", "TLE_%(satname)s.txt")
+    r = cls(**kw)
+    if data is not None:
+        r.read(name, fileobj=io.BytesIO(data))
+    else:
+        r.read(path)
+    return r
